@@ -13,7 +13,7 @@ use std::sync::Arc;
 pub type Result<T> = std::result::Result<T, Error>;
 pub struct BreakerStrategy { pub c: u8 }
 /// the fields of flow::Rule this function reads; everything else is behind `rule_eq` / `stat_reusable`
-pub struct Rule { pub resource: String, pub strategy: BreakerStrategy, pub rest: u64 }
+pub struct Rule { pub id: String, pub resource: String, pub strategy: BreakerStrategy, pub rest: u64 }
 #[verifier::external_body] pub struct CounterLeapArray { _p: u8 }
 #[verifier::external_body] pub struct Breaker { _p: u8 }
 #[verifier::external_body] pub struct Generator { _p: u8 }
